@@ -88,6 +88,7 @@ class Ctx:
         self.samples = []
         self.violations = []  # dicts: sig, detail, case(driver, request)
         self.leads = []
+        self.deferred = []  # machinery failures that did not stop the run: exit 2 unless a real-code violation was reproduced
         self.notes = []
         self.assumptions = []
         self.extra = {}
@@ -214,14 +215,25 @@ class Ctx:
         e["VERIF_TMP"] = d
         if env:
             e.update(env)
+        empty = {"evaluations": 0, "distinct": 0, "trivial": 0, "violations": [], "samples": [], "results": [], "info": {}, "failed": True}
         try:
             p = subprocess.run([drv, name, req, resp], stdout=subprocess.PIPE, stderr=subprocess.STDOUT, text=True,
                                timeout=timeout, env=e, cwd=d)
         except subprocess.TimeoutExpired:
-            raise MachineryError("driver %s timed out" % name)
+            self.deferred.append("driver %s (%s) timed out after %ds" % (name, tag, timeout))
+            return empty
+        if p.returncode == 3 and os.path.exists(resp):
+            # the driver gave up part of the way (e.g. its guard against a strategy that never applied): incomplete run, but
+            # whatever it reproduced on the real code before that still counts
+            r = json.load(open(resp))
+            self.deferred.append("driver %s (%s) incomplete: %s" % (name, tag, (r.get("info") or {}).get("driver_error")))
+            r["failed"] = True
+            r["_stdout"] = p.stdout[-2000:]
+            return r
         if p.returncode != 0 or not os.path.exists(resp):
             sys.stderr.write(p.stdout[-6000:])
-            raise MachineryError("driver %s failed rc=%d" % (name, p.returncode))
+            self.deferred.append("driver %s (%s) failed rc=%d: %s" % (name, tag, p.returncode, p.stdout.strip().splitlines()[-1][:300] if p.stdout.strip() else ""))
+            return empty
         r = json.load(open(resp))
         r["_stdout"] = p.stdout[-2000:]
         return r
@@ -326,7 +338,7 @@ class Ctx:
             "obligations": len(self.apalache),
             "discharged": sum(1 for a in self.apalache if a.get("expected_ok", True) and a["outcome"] == a.get("expected", a["outcome"])),
             "known_findings_seen": sorted(seen_known.keys()),
-            "notes": self.notes,
+            "notes": self.notes + ["INCOMPLETE RUN: " + m for m in self.deferred],
         }
         if self.exhaustive is not None:
             cov["exhaustive"] = self.exhaustive
@@ -342,6 +354,11 @@ class Ctx:
         print("%s %s seed=%d: states=%d transitions=%d traces=%d evaluations=%d distinct=%d violations=%d known=%d wall=%.1fs" % (
             self.pid, self.tier, self.seed, self.states, self.transitions, self.traces_validated, self.evaluations,
             self.distinct, len(reported), len(seen_known), wall))
+        if self.deferred:
+            for m in self.deferred[:10]:
+                print("%s property=%s %s" % ("NOTE machinery:" if rc == 1 else "MACHINERY-ERROR", self.pid, m))
+            if rc == 0:
+                return 2  # an incomplete run decides nothing
         return rc
 
     def cleanup(self):
